@@ -193,10 +193,6 @@ class Instantiator:
         if fn == "sqrt":
             ax.append(z3.Implies(x >= 0, z3.And(a >= 0, a * a == x)))
             N("sqrt: x>=0 => sqrt(x)>=0 and sqrt(x)^2=x")
-            if deep and z3.is_mul(x) and x.num_args() == 2:
-                p_, q_ = x.arg(0), x.arg(1)
-                ax.append(z3.Implies(z3.And(p_ >= 0, q_ >= 0), a == UF["sqrt"](p_) * UF["sqrt"](q_)))
-                N("p,q>=0 => sqrt(p q)=sqrt(p)sqrt(q)")
         elif fn == "cbrt":
             ax.append(a * a * a == x)
             N("cbrt(x)^3=x")
